@@ -1,7 +1,7 @@
 """Program and stdin generators for the interpreter-level properties."""
 from . import parsegen as P
 
-HEART_SMALL = [0, 1, 2, 11]       # ♥ ❤ 💕 ♡ (index into HEARTS; 11 = white heart, type 13)
+HEART_SMALL = [0, 1, 2, 11]       # ♥ ❤ 💕 ♡ (index into HEARTS; 11 = white heart, type 13); re-drawn per program, see gen_program
 
 
 def gen_tree(rng):
@@ -66,6 +66,8 @@ def render(cmds, sep=" "):
 def gen_program(rng, n=None):
     n = n or rng.choice([1, 2, 3, 4, 5, 6, 8, 10, 14])
     private = rng.sample([3, 4, 5, 6, 7, 8, 9, 10], 3)
+    # a palette of three of the eleven coloured hearts (few, so that labels are met again and jumps happen) plus the white heart
+    HEART_SMALL[:] = rng.sample(range(11), 3) + [11]
     r = rng.random()
     cmds = []
     if r < 0.25:
@@ -167,3 +169,19 @@ def boundary_programs():
         for stream in (1, 2):
             out.append(("print-%x-to-%d" % (v, stream), push_value(v) + " 항" + "." * stream, ""))
     return out
+
+
+def layout_program(rng):
+    """a few commands, the last one placed at a line and a column where the decimal width of `line:col` changes
+    (9/10, 99/100, 999/1000, counted from 0 or from 1)"""
+    private = [3, 4, 5]
+    n = rng.choice([1, 2, 3, 4])
+    cmds = [render_cmd(gen_cmd(rng, private, io_weight=0.2)) for _ in range(n)]
+    edge = [0, 1, 8, 9, 10, 11, 98, 99, 100, 101, 998, 999, 1000, 1001]
+    nl = rng.choice([0, 0, 0] + edge[:10] + [rng.choice(edge)])
+    col = rng.choice(edge[:10] * 2 + edge)
+    head = " ".join(cmds[:-1])
+    if nl == 0:
+        pad = max(0, col - len(head)) if head else col
+        return head + " " * max(pad, 1 if head else 0) + cmds[-1] if head else " " * col + cmds[-1]
+    return head + "\n" * nl + " " * col + cmds[-1]
